@@ -8,7 +8,18 @@ Two sources of legal DFI traces
 Oracle: lib.refdram.RefDRAM (with the model's background: zeros or the init image laid out by an independent statement of
 the two mappings) reads the same DFI signals in lock-step; rddata/rddata_valid of every phase are compared every cycle;
 every trace ends with a read-back sweep of the touched locations and their neighbours; image cases read boundary and
-drawn words of the image.  See DESIGN.md section 3, C19."""
+drawn words of the image.  See DESIGN.md section 3, C19.
+
+Clauses (key = input class):
+  C19.rddata_valid        rddata_valid differs                      keys: only_phase0_valid | <class>
+  C19.rddata              read data differs, main part of a trace   keys: colbits_gt_10:a10_or_a11_in_column | controller_stream[...] | unexplained
+  C19.final_contents      read data differs in the read-back sweep  (same keys)
+  C19.init_image          a never-written location of an image case (same keys)
+  C19.same_cycle_commands a mismatch explained by commands on different phases of one controller cycle that touch the same bank
+                          (only the 'free' trace shape produces them)  keys: act_then_rd_same_cycle+pre_then_act_same_cycle+two_act_one_cycle ...
+  C19.core_incomplete     controller + model did not finish
+A shard does not stop at its first finding: it keeps the first case of each distinct (clause, key) and reports one of them
+(chosen by shard index), listing the others in the violation record."""
 import copy, time
 import lib.compat  # noqa
 from hypothesis import strategies as st
@@ -124,6 +135,22 @@ def draw_cfgs(strategy, n, seed):
     return xs[1:] if len(xs) > n else xs
 
 
+def remember(seen, fs, cfg, case):
+    """A shard does not stop at its first finding: it keeps the first case of every distinct (clause, key) it meets, so that a
+    frequent divergence (e.g. one that every read shows) cannot hide a rarer one behind it."""
+    for f in fs:
+        k = (f["clause"], f["key"])
+        if k not in seen:
+            seen[k] = (cfg, copy.deepcopy(case))
+
+
+def choose(seen, idx):
+    """the runner takes one violation per shard: shards pick different ones of what they saw (by shard index)"""
+    keys = sorted(seen)
+    k = keys[idx % len(keys)]
+    return k, seen[k][0], seen[k][1]
+
+
 def unknown_of(col, fs):
     return [f for f in fs if match_known(col.known, f) is None]
 
@@ -174,6 +201,7 @@ def run_trace_shard(sh, col):
     kw = dict(sh["cfgkw"])
     cfgs = draw_cfgs(cm.model_cfg(**kw), sh["ncfg"], sh["seed"])
     ndiff = 1 if tier == "quick" else 2
+    seen = {}
     for ci, cfg in enumerate(cfgs):
         plans = []
         if kind == "image":
@@ -193,19 +221,19 @@ def run_trace_shard(sh, col):
                 col.stats["simulated_cycles"] = col.stats.get("simulated_cycles", 0) + run.cycles
                 col.stats["dfi_commands"] = col.stats.get("dfi_commands", 0) + len(run.sched.cmds)
                 col.stat_max("max_cycles_per_case", run.cycles)
-                return col.filter(fs)
-            found = hyp_search(test, strategy, sh["seed"] * 100 + ci * 10 + pi, n, shrink=False)
-            if found:
-                case, fs = found
-                target = (fs[0]["clause"], fs[0]["key"])
-                case = minimise_trace(cfg, case, target, col, 40 if tier == "quick" else 120)
-                run, f_m, _, _ = eval_trace(cfg, case, backend="migen")
-                f_m = unknown_of(col, f_m)
-                if not any((f["clause"], f["key"]) == target for f in f_m):
-                    raise HarnessError("finding %s from fastsim does not reproduce on migen.sim (cfg %s)" % (target, cm.cfg_key(cfg)))
-                f_m = [f for f in f_m if (f["clause"], f["key"]) == target] + [f for f in f_m if (f["clause"], f["key"]) != target]
-                return dict(case=dict(cfg=cfg, case=case, commands=render(run)), findings=f_m, confirmed_on="migen.sim")
-    return None
+                remember(seen, col.filter(fs), cfg, case)
+                return []
+            hyp_search(test, strategy, sh["seed"] * 100 + ci * 10 + pi, n, shrink=False)
+    if not seen:
+        return None
+    target, cfg, case = choose(seen, sh["idx"])
+    case = minimise_trace(cfg, case, target, col, 40 if tier == "quick" else 120)
+    run, f_m, _, _ = eval_trace(cfg, case, backend="migen")
+    f_m = unknown_of(col, f_m)
+    if not any((f["clause"], f["key"]) == target for f in f_m):
+        raise HarnessError("finding %s from fastsim does not reproduce on migen.sim (cfg %s)" % (target, cm.cfg_key(cfg)))
+    f_m = [f for f in f_m if (f["clause"], f["key"]) == target] + [f for f in f_m if (f["clause"], f["key"]) != target]
+    return dict(case=dict(cfg=cfg, case=case, commands=render(run)), findings=f_m, confirmed_on="migen.sim", other_findings_in_shard=sorted("%s / %s" % k for k in seen if k != target))
 
 
 def run_core_shard(sh, col):
@@ -213,9 +241,21 @@ def run_core_shard(sh, col):
     tier = sh["tier"]
     kw = dict(sh["cfgkw"])
     cfgs = draw_cfgs(cm.model_cfg(core=True, **kw), sh["ncfg"], sh["seed"])
+    seen = {}
     for ci, cfg in enumerate(cfgs):
         ccfg = cm.core_cfg_of(cfg)
         stim_strategy = cc.core_stim(ccfg, max_ops=16 if tier == "quick" else 40)
+        if not cfg["weg"]:
+            # whole-word write enable: the model has no byte lanes by configuration, only full writes are inside the domain
+            full = (1 << (ccfg["dfi_databits"] * ccfg["nphases"] // 8)) - 1
+
+            def all_bytes(stim, full=full):
+                for ops in stim["ports"]:
+                    for op in ops:
+                        if op["we"]:
+                            op["be"] = full
+                return stim
+            stim_strategy = stim_strategy.map(all_bytes)
         cm.get_sim(cfg)
         if ci == 0:
             col.diff_cycles += diff_core(cfg, draw_examples(stim_strategy, 2, sh["seed"] + 7)[-1])
@@ -229,26 +269,26 @@ def run_core_shard(sh, col):
             col.stats["dfi_commands"] = col.stats.get("dfi_commands", 0) + len(run.dram.cmds)
             if "controller_trace_illegal" in classes:
                 col.stats["controller_traces_outside_domain"] = col.stats.get("controller_traces_outside_domain", 0) + 1
-            return col.filter(fs)
-        found = hyp_search(test, stim_strategy, sh["seed"] * 100 + ci, sh["ncases"], shrink=False)
-        if found:
-            stim, fs = found
-            target = (fs[0]["clause"], fs[0]["key"])
+            remember(seen, col.filter(fs), cfg, stim)
+            return []
+        hyp_search(test, stim_strategy, sh["seed"] * 100 + ci, sh["ncases"], shrink=False)
+    if not seen:
+        return None
+    target, cfg, stim = choose(seen, sh["idx"])
 
-            def fails(s):
-                try:
-                    _, f2, _, _ = eval_core(cfg, s)
-                except HarnessError:
-                    return False
-                return any((f["clause"], f["key"]) == target for f in f2)
-            stim = ddmin_stim(stim, fails, 40 if tier == "quick" else 120)
-            _, f_m, _, _ = eval_core(cfg, stim, backend="migen")
-            f_m = unknown_of(col, f_m)
-            if not any((f["clause"], f["key"]) == target for f in f_m):
-                raise HarnessError("finding %s from fastsim does not reproduce on migen.sim (cfg %s)" % (target, cm.cfg_key(cfg)))
-            f_m = [f for f in f_m if (f["clause"], f["key"]) == target] + [f for f in f_m if (f["clause"], f["key"]) != target]
-            return dict(case=dict(cfg=cfg, stim=stim), findings=f_m, confirmed_on="migen.sim")
-    return None
+    def fails(s_):
+        try:
+            _, f2, _, _ = eval_core(cfg, s_)
+        except HarnessError:
+            return False
+        return any((f["clause"], f["key"]) == target for f in f2)
+    stim = ddmin_stim(stim, fails, 40 if tier == "quick" else 120)
+    _, f_m, _, _ = eval_core(cfg, stim, backend="migen")
+    f_m = unknown_of(col, f_m)
+    if not any((f["clause"], f["key"]) == target for f in f_m):
+        raise HarnessError("finding %s from fastsim does not reproduce on migen.sim (cfg %s)" % (target, cm.cfg_key(cfg)))
+    f_m = [f for f in f_m if (f["clause"], f["key"]) == target] + [f for f in f_m if (f["clause"], f["key"]) != target]
+    return dict(case=dict(cfg=cfg, stim=stim), findings=f_m, confirmed_on="migen.sim", other_findings_in_shard=sorted("%s / %s" % k for k in seen if k != target))
 
 
 def run_shard(sh):
